@@ -24,6 +24,10 @@ type TailObs struct {
 	Orphans  []int  `json:"orphans"` // heights readable outside Tail..Head afterwards
 	HeadErr  bool   `json:"headErr"` // a later Head() call still fails
 	Msg      string `json:"msg,omitempty"`
+	// afterwards a header for an already known height with a later timestamp is gossiped (it must be refused):
+	KnownRes  string `json:"knownRes"`  // "" (not run) | nil | err
+	KnownTail int    `json:"knownTail"` // Tail after that delivery
+	KnownLost []int  `json:"knownLost"` // heights readable before the delivery and not after it
 }
 
 type TailRec struct {
@@ -61,7 +65,14 @@ func TestTail(t *testing.T) {
 			if tail == 0 {
 				opts = append(opts, hsync.WithTrustingPeriod(time.Duration(tp)*tick))
 			} else {
-				opts = append(opts, hsync.WithTrustingPeriod(100000*tick))
+				// a running store: the stored head must not be expired (that would be a re-initialisation).  Replay-only
+				// variant tpSmall: the shortest trusting period that still covers the stored head, when that is shorter
+				// than the pruning window — the pruning window is what bounds the stored history, not the trusting period
+				trusting := 100000 * tick
+				if ageHead := times[nhead-1] - times[shead-1]; mbt.Bool(in, "tpSmall") && ageHead+1 < w {
+					trusting = time.Duration(ageHead+1)*tick + 2*time.Minute
+				}
+				opts = append(opts, hsync.WithTrustingPeriod(trusting))
 			}
 			if sfh > 0 {
 				opts = append(opts, hsync.WithSyncFromHeight(uint64(sfh)))
@@ -150,6 +161,47 @@ func TestTail(t *testing.T) {
 					rec.Obs.HeadErr = err != nil
 				}()
 			}
+			rec.Obs.KnownLost = []int{}
+			if rec.Obs.Kind == "ok" && tail > 0 && !rec.Obs.HeadErr {
+				// a header for a height the node already has, dated later than the real one: refused as known, and the
+				// refusal must not move the tail
+				present := map[int]bool{}
+				for h := 1; h <= nhead; h++ {
+					ctx, cancel := context.WithTimeout(bg, time.Millisecond)
+					if _, err := n.st.GetByHeight(ctx, uint64(h)); err == nil {
+						present[h] = true
+					}
+					cancel()
+				}
+				kh := netChain.At(uint64(shead)).Clone()
+				kh.T = netChain.Head().T + int64(30*time.Second)
+				func() {
+					defer func() {
+						if r := recover(); r != nil {
+							rec.Obs.Kind, rec.Obs.Msg = "panic", fmt.Sprint(r)
+						}
+					}()
+					ctx, cancel := context.WithTimeout(bg, time.Minute)
+					defer cancel()
+					if err := n.sub.deliver(ctx, kh); err == nil {
+						rec.Obs.KnownRes = "nil"
+					} else {
+						rec.Obs.KnownRes = "err"
+					}
+				}()
+				time.Sleep(time.Minute)
+				synctest.Wait()
+				if tl, err := n.st.Tail(bg); err == nil {
+					rec.Obs.KnownTail = int(tl.Height())
+				}
+				for h := 1; h <= nhead; h++ {
+					ctx, cancel := context.WithTimeout(bg, time.Millisecond)
+					if _, err := n.st.GetByHeight(ctx, uint64(h)); err != nil && present[h] {
+						rec.Obs.KnownLost = append(rec.Obs.KnownLost, h)
+					}
+					cancel()
+				}
+			}
 			n.stop()
 			time.Sleep(time.Minute)
 			synctest.Wait()
@@ -160,7 +212,11 @@ func TestTail(t *testing.T) {
 		wk := mbt.Str(want, "kind")
 		ok := rec.Obs.Kind == wk || (wk == "wrap" && rec.Obs.Wrapped)
 		if ok && wk == "ok" && rec.Obs.Tail != mbt.Int(want, "tail") {
-			ok = false
+			// the store's Height() at the moment the tail is computed may or may not include an adjacent new head yet
+			// (asynchronous flush): the model gives both outcomes
+			if alt := mbt.Map(c, "alt"); mbt.Str(alt, "kind") != "ok" || rec.Obs.Tail != mbt.Int(alt, "tail") {
+				ok = false
+			}
 		}
 		if !ok {
 			res.Verdict, res.Detail = "drift", fmt.Sprintf("in=%s observed %s, model %s", mbt.J(in), mbt.J(rec.Obs), mbt.J(want))
